@@ -166,17 +166,22 @@ func c07Exec(depth int, maxFaults int, tornAll bool) explore.Exec {
 }
 
 func c07Profiles(tier string) []Profile {
-	d, randDev := 2, 0
-	if tier == "thorough" {
-		d, randDev = 3, 1
+	sparse := "writes failing outright and after 0, 1, n/2, n-1 bytes applied"
+	rule := func(d int, torn string, rnd string) string {
+		return fmt.Sprintf("5 initial stores (empty; 3 items flushed and re-opened; two root records with the tree cached; a 7-item tree flushed and re-opened; durable state plus unflushed changes) x every history of length <= %d over Get/GetItem/Min/Totals/visit/iterator/Len/Exist/Set (overwrite and new key)/Delete/Evict/Flush/CopyTo(flushEvery 0,1; faults on the source and, separately, on the destination file)/FlushRevert/Reopen x one failing file call at every ReadAt/WriteAt/Stat/Truncate index, %s; eviction walks follow %s; the failed call is either retried at once or not retried (both explored) and the history continues fault-free; then a fixed suffix runs (re-open after a failed open/FlushRevert; Set; Flush; full read battery; copy of the file re-opened; Reopen; full read battery). Oracles: the failing call returns an error and no data, nothing panics or hangs, contents equal the model unchanged by the failed call, the file re-opens to a durable state of the model, the retried call and everything after behave per model", d, torn, rnd)
 	}
-	ps := []Profile{{Name: "single", Exec: c07Exec(d, 1, tier == "thorough"), Budget: map[int]int{explore.ClassFault: 1, explore.ClassRand: randDev}, ShardLevel: 3,
-		Rule: fmt.Sprintf("5 initial stores (empty; 3 items flushed and re-opened; two root records with the tree cached; a 7-item tree flushed and re-opened; durable state plus unflushed changes) x every history of length <= %d over Get/GetItem/Min/Totals/visit/iterator/Len/Exist/Set (overwrite and new key)/Delete/Evict/Flush/CopyTo(flushEvery 0,1; faults on the source and, separately, on the destination file)/FlushRevert/Reopen x one failing file call at every ReadAt/WriteAt/Stat/Truncate index, writes failing outright and after partial lengths (quick: 0, 1, n/2, n-1 bytes applied; thorough: every length 0..n-1); eviction walks (Evict, and those inside CopyTo) follow the default random branch (thorough: plus every single deviation); the failed call is either retried at once or not retried (both explored) and the history continues fault-free; then a fixed suffix runs (re-open after a failed open/FlushRevert; or re-open after a failed open/FlushRevert; Set; Flush; full read battery; copy of the file re-opened; Reopen; full read battery). Oracles: the failing call returns an error and no data, nothing panics or hangs, contents equal the model unchanged by the failed call, the file re-opens to a durable state of the model, the retried call and everything after behave per model", d)}}
-	if tier == "thorough" {
-		ps = append(ps, Profile{Name: "double", Exec: c07Exec(1, 2, false), Budget: map[int]int{explore.ClassFault: 2, explore.ClassRand: 0}, ShardLevel: 3,
-			Rule: "same initial stores x every single operation x every pair of failing file calls (second fault anywhere after the first, including inside the retry-free remainder of the same call)"})
+	if tier != "thorough" {
+		return []Profile{{Name: "single", Exec: c07Exec(2, 1, false), Budget: map[int]int{explore.ClassFault: 1, explore.ClassRand: 0}, ShardLevel: 3,
+			Rule: rule(2, sparse, "the default random branch")}}
 	}
-	return ps
+	return []Profile{
+		{Name: "single", Exec: c07Exec(2, 1, true), Budget: map[int]int{explore.ClassFault: 1, explore.ClassRand: 1}, ShardLevel: 3,
+			Rule: rule(2, "writes failing outright and after every partial length 0..n-1", "the default random branch and every single deviation from it")},
+		{Name: "deep", Exec: c07Exec(3, 1, false), Budget: map[int]int{explore.ClassFault: 1, explore.ClassRand: 0}, ShardLevel: 3,
+			Rule: rule(3, sparse, "the default random branch")},
+		{Name: "double", Exec: c07Exec(1, 2, false), Budget: map[int]int{explore.ClassFault: 2, explore.ClassRand: 0}, ShardLevel: 3,
+			Rule: "same initial stores x every single operation x every pair of failing file calls (the second fault anywhere after the first, including inside the retry)"},
+	}
 }
 
 func init() {
